@@ -53,6 +53,10 @@ def observe_reduce(fx, np, props, fn, route, t, codes, shape, axis=None, offset=
             raise AssertionError('harness: derived operand does not hold the intended codes')
         row['route'] = route + '.' + fn + ('' if via == 'direct' else '/' + via)
         Y = (derived(fx, np, t2, codes2, shape2, via if via in ('T', 'slice') else 'direct')) if t2 else None
+        if via == 'same-object' and t2 is not None:          # aliasing: the SAME object is both operands (x . x)
+            if tuple(t2) != tuple(t) or list(codes2) != list(codes) or tuple(shape2) != tuple(shape):
+                raise AssertionError('same-object needs identical operands')
+            Y = X
         npr = route == 'np'
         # the RESULT of an earlier reduction of the same operand is reconfigured: the operand itself was never touched
         try:
